@@ -99,3 +99,17 @@ Definition check_pp (c : pp_case) : bool :=
   | None, None => true
   | _, _ => false
   end.
+
+(* ---- 5. TextSlice(text, start, end): observed normalised (start, end), or None for AssertionError ------------ *)
+From LV Require Import Gen.TextSlice.
+Inductive slice_case := SliceCase (n start : Z) (e : option Z) (obs : option (Z * Z)) (complete : bool) (len : Z).
+
+Definition check_slice (c : slice_case) : bool :=
+  let '(SliceCase n s e obs complete len) := c in
+  match ts_start n s, ts_end n e, obs with
+  | Some s', Some e', Some (os, oe) =>
+      Z.eqb s' os && Z.eqb e' oe && Bool.eqb (ts_complete n s' e') complete && Z.eqb (ts_len s' e') len
+  | None, _, None => true
+  | Some _, None, None => true
+  | _, _, _ => false
+  end.
